@@ -169,6 +169,46 @@ theorem W_rec (K IV : Vector U32 4) {i : Nat} (h : 16 ≤ i) :
   simp only [W, Wtab, h1, h2, if_false]
   exact getElem!_push_size _ hs
 
-/-! ## test vectors of the paper (§ "Test vectors of HC-128", first four keystream words) -/
+/-! ## anchors
+
+  Kernel-checked (`decide`) anchors for the notation: ⊟, the byte selection of h1/h2, the
+  rotation directions, the first expanded word.
+
+  The test vectors of the paper (section 5 / appendix "Test vectors of HC-128": the first
+  keystream words for three key/IV pairs) need the whole initialisation (1264 expansion
+  steps and 1024 set-up steps).  Kernel evaluation of that (`decide +kernel`) was tried and
+  is far too slow: the kernel evaluates call-by-name, `W … 400` alone takes about 50 s and
+  the time grows faster than quadratically in the index.  They are therefore checked with
+  `#guard`, i.e. by the compiler's evaluator when this file is built: a mismatch fails
+  the build, but these three checks are tests, not kernel-checked theorems.  (No theorem
+  depends on them.)  The fourth `#guard` uses values from the `rand_hc` test-suite (not
+  from the paper) for positions 1616 … 1619, which lie in a Q phase of the second pass
+  through the tables.
+-/
+
+example : (0 ⊟ 3) = 509 ∧ (5 ⊟ 10) = 507 ∧ (5 ⊟ 511) = 6 ∧ (511 ⊟ 511) = 0 ∧ (12 ⊟ 12) = 0 := by
+  decide
+example : byte 0xa1b2c3d4#32 0 = 0xd4 ∧ byte 0xa1b2c3d4#32 2 = 0xb2 := by decide
+example : (0x00000001#32).rotateRight 1 = 0x80000000#32 ∧
+    (0x80000000#32).rotateLeft 1 = 0x00000001#32 := by decide
+example : f1 0x80000000#32 = 0x11002000#32 ∧ f2 0x80000000#32 = 0x00205000#32 := by decide
+example : g1 0x400#32 0x100#32 0x800000#32 = 1 ∧ g2 0x400000#32 0x1000000#32 0x200#32 = 1 := by
+  decide
+example : W #v[0, 0, 0, 0] #v[0, 0, 0, 0] 16 = 16 := by decide +kernel
+example : W #v[1, 2, 3, 4] #v[5, 6, 7, 8] 6 = 3 ∧ W #v[1, 2, 3, 4] #v[5, 6, 7, 8] 13 = 6 := by
+  decide +kernel
+
+-- key = 0, IV = 0
+#guard (List.range 4).map (keystream #v[0, 0, 0, 0] #v[0, 0, 0, 0]) =
+  [0x73150082, 0x3bfd03a0, 0xfb2fd77f, 0xaa63af0e]
+-- key = 0, IV = 1
+#guard (List.range 4).map (keystream #v[0, 0, 0, 0] #v[1, 0, 0, 0]) =
+  [0xc01893d5, 0xb7dbe958, 0x8f65ec98, 0x64176604]
+-- key = 0x55, IV = 0
+#guard (List.range 4).map (keystream #v[0x55, 0, 0, 0] #v[0, 0, 0, 0]) =
+  [0x518251a4, 0x04b4930a, 0xb02af931, 0x0639f032]
+-- key = 0, IV = 0, positions 1616 … 1619 (rand_hc `test_hc128_true_values_u64`)
+#guard (List.range 4).map (fun k => keystream #v[0, 0, 0, 0] #v[0, 0, 0, 0] (1616 + k)) =
+  [0x84d0fc10, 0xd8c4d6ca, 0xdc66e8e7, 0xf16a5d91]
 
 end Rngs.Spec.Wu
